@@ -335,6 +335,9 @@ def generate(rng, index, tier, extra):  # pylint: disable=unused-argument
             ops.append({'op': op})
             if op == 'clear':
                 length = 0
+    for op in ops:
+        if 'at' in op and rng.random() < 0.05:
+            op['at'] = {'bad': rng.choice(sorted(BAD_POSITIONS))}
     twin = rng.random() < 0.25
     if twin:
         # a second vector built from the first one (as attrs converters do); both are edited
@@ -345,12 +348,22 @@ def generate(rng, index, tier, extra):  # pylint: disable=unused-argument
 
 # ---------------------------------------------------------------- execution
 
+BAD_POSITIONS = {'none': None, 'str': '0', 'float': 1.0, 'list': [0], 'big': 2 ** 70, 'negbig': -2 ** 70}
+
+
+def _position(op):
+    """The position operand: an integer, or (injected fault) a value a caller passes by mistake - a plain list refuses
+    the wrong types with TypeError and clamps or refuses the huge integers."""
+    at = op['at']
+    return BAD_POSITIONS[at['bad']] if isinstance(at, dict) else at
+
+
 def _apply(target, op, pool):
     kind = op['op']
     if kind == 'append':
         return target.append(pool[op['item']])
     if kind == 'insert':
-        return target.insert(op['at'], pool[op['item']])
+        return target.insert(_position(op), pool[op['item']])
     if kind == 'extend':
         return target.extend([pool[i] for i in op['items']])
     if kind == 'iadd':
@@ -359,17 +372,17 @@ def _apply(target, op, pool):
     if kind == 'pop':
         return target.pop()
     if kind == 'popat':
-        return target.pop(op['at'])
+        return target.pop(_position(op))
     if kind == 'remove':
         return target.remove(pool[op['item']])
     if kind == 'del':
-        del target[op['at']]
+        del target[_position(op)]
         return None
     if kind == 'delslice':
         del target[slice(*op['slice'])]
         return None
     if kind == 'set':
-        target[op['at']] = pool[op['item']]
+        target[_position(op)] = pool[op['item']]
         return None
     if kind == 'setslice':
         target[slice(*op['slice'])] = [pool[i] for i in op['items']]
